@@ -1,6 +1,6 @@
 '''C19: minimal reproducers of the known findings against the unchanged tree.
 
-Run:  PYTHONPATH=/verif/harness /venv/bin/python -m pv.c19_repro {offset|sign|zerotrip}
+Run:  PYTHONPATH=/verif/harness /venv/bin/python -m pv.c19_repro {offset|sign|zerotrip|alias}
 
 Each prints the tangent-linear code, the adjoint PSyAD generates, and the two
 numbers that differ when both are executed by hand (plain Python, exact).
@@ -64,6 +64,31 @@ def zerotrip():
     return bool(list(range(start, 1, -2)))
 
 
+def alias():
+    '''runtime-aliased-index:  d(u,:) = p*d(v,:) + e(:)  is transformed as if
+    u /= v; called with u = v the tl code scales row u by p (and adds e), the
+    adjoint computes d(v,:) = d(v,:) + p*d(u,:), e = e + d(u,:) and then zeroes
+    row u: the diagonal entry is 0 instead of p.'''
+    from psyclone.psyad.tl2ad import generate_adjoint_str
+    src = ("subroutine k(d, e, p, u, v)\n  integer, intent(in) :: u, v\n  real, intent(in) :: p\n"
+           "  real, intent(inout) :: d(3,3), e(3)\n  d(u,:) = p*d(v,:) + e(:)\nend subroutine k\n")
+    ad, _ = generate_adjoint_str(src, ["d", "e"])
+    print(src + ad)
+    lines = [l.strip() for l in ad.splitlines()]
+    # by hand, u = v = 1, p = 2, input d(1,1) = 1: tl gives d(1,1) = 2
+    d11, e1, p = 1.0, 0.0, 2.0
+    for l in lines:            # execute the three adjoint statements for idx = 1, u = v
+        if l.startswith("d(v,idx) ="):
+            d11 = d11 + p * d11
+        elif l.startswith("e(idx) ="):
+            e1 = e1 + d11
+        elif l.startswith("d(u,idx) = 0.0"):
+            d11 = 0.0
+    print(f"u=v=1, p=2: tl maps d(1,1)=1 to {p}; adjoint maps it to d(1,1)={d11}, e(1)={e1} "
+          f"(transpose requires d(1,1)=2, e(1)=1)")
+    return d11 != p
+
+
 def _fmod(l, r):
     q = abs(l) // abs(r)
     q = q if (l < 0) == (r < 0) else -q
@@ -74,6 +99,6 @@ if __name__ == "__main__":
     from pv import core
     core.setup_psyclone_env()
     which = sys.argv[1] if len(sys.argv) > 1 else "offset"
-    ok = {"offset": offset, "sign": sign, "zerotrip": zerotrip}[which]()
+    ok = {"offset": offset, "sign": sign, "zerotrip": zerotrip, "alias": alias}[which]()
     print("DEFECT REPRODUCED" if ok else "not reproduced")
     sys.exit(0 if ok else 1)
